@@ -800,6 +800,10 @@ def finish(g, spec, ops, **extra):
     meta.update(extra.pop("meta", {}))
     case = {"cluster": spec, "ops": ops, "meta": meta}
     case.update(extra)
+    if g.family in ("random", "many") and "plan" not in case and g.rng.random() < 0.12:
+        # a stream that takes only part of what it is offered: every request still has to arrive as one complete frame
+        case["plan"] = {"write_chunk": g.rng.choice([1000, 4096])}
+        meta["write_chunk"] = case["plan"]["write_chunk"]
     return case
 
 
